@@ -27,7 +27,7 @@ TECHNIQUE = (
     "exhaustive enumeration of populations up to size 4-5 over a fitness alphabet (ties, duplicates, the same object "
     "twice, evaluated or not) x optimisation direction x elite count x iterable form, against a raw-fitness reference; "
     "GP runs on a stub representation over weight vectors and sizes with the random answers explored by E1 (deviation "
-    "bounded), the elitism slot observed by a recording subclass and the per-generation best by a recorder"
+    "bounded), the elitism slot observed by a recording subclass and the per-generation best by a recorder; the elite share of a ParallelStep / RandomizeParallelStep object whose weights change between generations, against an independent rounded-share reference"
 )
 RULE = (
     "case = (fitness vector, direction, k, form); oracle: exactly k returned, members of the input, no excluded individual "
